@@ -24,7 +24,7 @@ OBS = ('iter', 'length', 'merged', 'merged_mutate', 'play', 'play_abandon', 'sav
 EDITS = ('add_track', 'tracks_append', 'tracks_insert', 'tracks_pop', 'tracks_set', 'tracks_replace',
          'track_append', 'track_insert', 'track_extend', 'track_pop', 'track_sort', 'track_set',
          'msg_time', 'msg_note', 'tempo_set', 'track_name', 'set_type', 'set_tpb', 'track_slice_del', 'track_iadd',
-         'track_clear')
+         'track_clear', 'bad_assign')
 
 
 def mk(spec):
@@ -39,7 +39,20 @@ def mk(spec):
         return MetaMessage('end_of_track', time=spec[2])
     if k == 'clock':
         return Message('clock', time=spec[2])
+    if k == 'seqspec':
+        # payload handed over as a plain list, the way an application that builds it step by step would
+        return MetaMessage('sequencer_specific', data=[spec[1] % 256, 1, 2][:1 + spec[1] % 3], time=spec[2])
+    if k == 'sysex':
+        return Message('sysex', data=[spec[1] % 128, 3], time=spec[2])
     raise ValueError(k)
+
+
+def dc(m):
+    """A copy that shares nothing mutable with the original (message copies share a list-valued payload)."""
+    c = m.copy()
+    if isinstance(vars(c).get('data'), list):
+        vars(c)['data'] = list(vars(c)['data'])
+    return c
 
 
 def gen_msg(rng):
@@ -49,6 +62,10 @@ def gen_msg(rng):
     if rng.random() < 0.04:
         t = float(t)        # a float that equals an integer (makes save raise until it is repaired)
     r = rng.random()
+    if r < 0.04:
+        return ['seqspec', rng.randrange(256), t]
+    if r < 0.08:
+        return ['sysex', rng.randrange(128), t]
     if r < 0.6:
         return ['note', rng.randrange(128), t]
     if r < 0.8:
@@ -79,6 +96,10 @@ def expected_events(track):
             out.append((d, 'meta', 0x01, m.text.encode('latin1')))
         elif m.type == 'track_name':
             out.append((d, 'meta', 0x03, m.name.encode('latin1')))
+        elif m.type == 'sequencer_specific':
+            out.append((d, 'meta', 0x7F, bytes(m.data)))
+        elif m.type == 'sysex':
+            out.append((d, 'sysex', 0xF0, bytes(m.data) + b'\xf7'))
         else:
             return None
     out.append((accum, 'meta', 0x2F, b''))
@@ -129,7 +150,7 @@ class History(BaseEngine):
                                    ('track_insert', 2), ('track_extend', 1), ('track_pop', 1.5), ('track_sort', 0.5),
                                    ('track_set', 1), ('msg_time', 2.5), ('msg_note', 1), ('tempo_set', 1.5),
                                    ('track_name', 0.7), ('set_type', 0.7), ('set_tpb', 1), ('track_slice_del', 0.7),
-                                   ('track_iadd', 0.7), ('track_clear', 0.4)))
+                                   ('track_iadd', 0.7), ('track_clear', 0.4), ('bad_assign', 1.2)))
                 ops.append(['edit', e, rng.randrange(1000), rng.randrange(1000),
                             [gen_msg(rng) for _ in range(rng.randint(1, 3))],
                             pick(rng, (0, 1, 10, 480, 1000, 96)), pick(rng, (0, 1, 2, 1, 1))])
@@ -197,7 +218,7 @@ class History(BaseEngine):
 
     def _fresh(self, model):
         return MidiFile(type=model['type'], ticks_per_beat=model['tpb'],
-                        tracks=[MidiTrack(m.copy() for m in t) for t in model['tracks']])
+                        tracks=[MidiTrack(dc(m) for m in t) for t in model['tracks']])
 
     def _observe(self, mf, kind, arg):
         """Perform one observation; the result is a plain comparable value."""
@@ -267,7 +288,7 @@ class History(BaseEngine):
 
         def new_track(msgs, ti_hint):
             # the caller creates the track object (sometimes a plain list), adds it and keeps its own reference
-            obj = [m.copy() for m in msgs] if (a + b) % 4 == 0 else MidiTrack(m.copy() for m in msgs)
+            obj = [dc(m) for m in msgs] if (a + b) % 4 == 0 else MidiTrack(dc(m) for m in msgs)
             return obj
         if e == 'add_track':
             name = None if a % 2 else f'n{a % 7}'
@@ -283,14 +304,14 @@ class History(BaseEngine):
             target.tracks.append(obj)
             held[len(target.tracks) - 1] = obj
             if model is not None:
-                model['tracks'].append([m.copy() for m in new])
+                model['tracks'].append([dc(m) for m in new])
         elif e == 'tracks_insert':
             held.clear()
             i = a % (nt + 1)
             new = [mk(s) for s in specs]
-            target.tracks.insert(i, MidiTrack(m.copy() for m in new))
+            target.tracks.insert(i, MidiTrack(dc(m) for m in new))
             if model is not None:
-                model['tracks'].insert(i, [m.copy() for m in new])
+                model['tracks'].insert(i, [dc(m) for m in new])
         elif e == 'tracks_pop':
             held.clear()
             if nt:
@@ -306,9 +327,9 @@ class History(BaseEngine):
             if nt:
                 i = a % nt
                 new = [mk(s) for s in specs]
-                target.tracks[i] = MidiTrack(m.copy() for m in new)
+                target.tracks[i] = MidiTrack(dc(m) for m in new)
                 if model is not None:
-                    model['tracks'][i] = [m.copy() for m in new]
+                    model['tracks'][i] = [dc(m) for m in new]
         elif e == 'tracks_replace':
             held.clear()
             keep = [t for j, t in enumerate(target.tracks) if (a >> j) & 1]
@@ -316,7 +337,8 @@ class History(BaseEngine):
             if model is not None:
                 model['tracks'] = [t for j, t in enumerate(model['tracks']) if (a >> j) & 1]
         elif e in ('track_append', 'track_insert', 'track_extend', 'track_pop', 'track_sort', 'track_set',
-                   'msg_time', 'msg_note', 'tempo_set', 'track_name', 'track_slice_del', 'track_iadd', 'track_clear'):
+                   'msg_time', 'msg_note', 'tempo_set', 'track_name', 'track_slice_del', 'track_iadd', 'track_clear',
+                   'bad_assign'):
             if not nt:
                 return
             ti = a % nt
@@ -328,18 +350,18 @@ class History(BaseEngine):
             n = len(tr)
             new = [mk(s) for s in specs]
             if e == 'track_append':
-                tr.append(new[0].copy())
+                tr.append(dc(new[0]))
                 if mtr is not None:
-                    mtr.append(new[0].copy())
+                    mtr.append(dc(new[0]))
             elif e == 'track_insert':
                 i = b % (n + 1)
-                tr.insert(i, new[0].copy())
+                tr.insert(i, dc(new[0]))
                 if mtr is not None:
-                    mtr.insert(i, new[0].copy())
+                    mtr.insert(i, dc(new[0]))
             elif e == 'track_extend':
-                tr.extend(m.copy() for m in new)
+                tr.extend(dc(m) for m in new)
                 if mtr is not None:
-                    mtr.extend(m.copy() for m in new)
+                    mtr.extend(dc(m) for m in new)
             elif e == 'track_pop':
                 if n:
                     i = b % n
@@ -355,9 +377,9 @@ class History(BaseEngine):
                 if mtr is not None:
                     del mtr[lo:hi]
             elif e == 'track_iadd':
-                tr += [m.copy() for m in new]
+                tr += [dc(m) for m in new]
                 if mtr is not None:
-                    mtr += [m.copy() for m in new]
+                    mtr += [dc(m) for m in new]
             elif e == 'track_clear':
                 tr.clear()
                 if mtr is not None:
@@ -369,9 +391,9 @@ class History(BaseEngine):
             elif e == 'track_set':
                 if n:
                     i = b % n
-                    tr[i] = new[0].copy()
+                    tr[i] = dc(new[0])
                     if mtr is not None:
-                        mtr[i] = new[0].copy()
+                        mtr[i] = dc(new[0])
             elif e == 'msg_time':
                 if n:
                     i = b % n
@@ -392,6 +414,25 @@ class History(BaseEngine):
                     tr[i].tempo = val * 1000
                     if mtr is not None:
                         mtr[i] = mtr[i].copy(tempo=val * 1000)
+            elif e == 'bad_assign':
+                # an assignment the message type does not allow: it raises, and the application carries on with
+                # the file as it was
+                if n:
+                    i = b % n
+                    m = tr[i]
+                    name, bad = {'note_on': ('note', 200), 'set_tempo': ('tempo', -1), 'sysex': ('data', [1, 200]),
+                                 'sequencer_specific': ('data', [1, 300]), 'text': ('text', 5),
+                                 }.get(m.type, ('time', 'soon'))
+                    if val % 3 == 0 and m.type == 'note_on':
+                        name, bad = 'velocity', -1
+                    try:
+                        setattr(m, name, bad)
+                    except (ValueError, TypeError):
+                        stats['fault:rejected_assignment'] += 1
+                    else:
+                        # accepted after all (how strict validation is is not this property's business): mirror it
+                        if mtr is not None:
+                            vars(mtr[i])[name] = getattr(m, name)
             elif e == 'track_name':
                 if not isinstance(tr, MidiTrack):
                     return      # a plain list has no name property: not a documented edit
@@ -421,7 +462,7 @@ class History(BaseEngine):
         self._held = {}
         a = self._make(plan)
         b = self._make(plan)
-        model = {'type': a.type, 'tpb': a.ticks_per_beat, 'tracks': [[m.copy() for m in t] for t in a.tracks]}
+        model = {'type': a.type, 'tpb': a.ticks_per_beat, 'tracks': [[dc(m) for m in t] for t in a.tracks]}
         last_obs = None
         edits_since = []
         observed = False
